@@ -94,13 +94,19 @@ def oracle(ctx, d, out, info, check_roundtrip):
                      dict(info, printed=printed, reparsed=repr(t)))
 
 
+def _walk(x):
+    yield x
+    for c in x.children:
+        yield from _walk(c)
+
+
 def run(ctx):
     I = common.impl()
     rng = ctx.rng
     cases = []
     n = ctx.budget(500, 10000)
     tg = gen.TreeGen(rng, layout="none", wild=0.0, none_items=0.0, max_children=3,
-                     words=["a", "b", "=b", "T12", "30", "TO", "1", "x1", "a\\ b", "foo*", "12:30"])
+                     words=["a", "b", "=b", "T12", "30", "TO", "1", "x1", "a\\ b", "foo*", "12:30", "foo\\ ", "\\ x", "b\\\t"])
     tgp = gen.TreeGen(rng, layout="partial", wild=0.1, none_items=0.02)
     for i in range(n):
         k = rng.random()
@@ -143,6 +149,56 @@ def run(ctx):
             if not trees.unchanged(o, snap):
                 ctx.fail("the input tree was modified", info)
         reqs.append({"op": "aht", "tree": d})
+        exp.append(impl_ans)
+    # ---- histories: the result of one call is edited in place (same root object) and handed in again. The second
+    # call must treat it as any tree with partial layout (a transformer that remembers what it produced would not)
+    BaseOp = I.tree.BaseOperation
+    for i in range(ctx.budget(80, 1500)):
+        d0 = common.normalize(tg.any())
+        o = common.load_tree(d0)
+        try:
+            r1 = I.aht.auto_head_tail(o)
+        except Exception:
+            continue
+        nodes = [x for x in _walk(r1) if isinstance(x, BaseOp)]
+        fresh = common.load_tree(common.normalize(tg.any()))
+        if nodes and rng.random() < 0.7:
+            tgt = rng.choice(nodes)
+            k = rng.randrange(len(tgt.children) + 1)
+            ch = list(tgt.children)
+            ch.insert(k, fresh)
+            tgt.children = ch
+        else:
+            holders = [x for x in _walk(r1) if len(x.children) >= 1 and not isinstance(x, (I.tree.Fuzzy, I.tree.Proximity,
+                                                                                            I.tree.From, I.tree.To))]
+            if not holders:
+                continue
+            tgt = rng.choice(holders)
+            ch = list(tgt.children)
+            ch[rng.randrange(len(ch))] = fresh
+            tgt.children = ch
+        d2 = common.dump_tree(r1)
+        info = {"tree": d2, "origin": "edited-result", "first_input": d0}
+        snap = trees.snapshot(r1)
+        try:
+            r2 = I.aht.auto_head_tail(r1)
+            out2 = common.dump_tree(r2)
+            impl_ans = {"ok": out2}
+        except IndexError:
+            impl_ans, out2 = {"err": "IndexError"}, None
+        except Exception as e:
+            ctx.fail("auto_head_tail raised %s: %s" % (type(e).__name__, e), info)
+            continue
+        ctx.case("hist:" + repr(common.strip_tree(d2, layout=True)), nontrivial=True)
+        ctx.count("edited-result")
+        if out2 is not None:
+            if r2 is r1:
+                ctx.fail("auto_head_tail returned its argument (the argument must be left untouched and a new tree returned)", info)
+            expr = expressible(d2)
+            oracle(ctx, d2, out2, info, expr)
+            if not trees.unchanged(r1, snap):
+                ctx.fail("the input tree was modified", info)
+        reqs.append({"op": "aht", "tree": d2})
         exp.append(impl_ans)
     if ctx.model_ok:
         for r, a, e in zip(reqs, common.ask_model(reqs), exp):
